@@ -422,3 +422,74 @@ fn real_binary_exponent_base() {
     kani::cover!(two && want_e > 255, "two octet exponent");
     core::mem::forget(r);
 }
+
+// ------------------------------------------------------------------------------------
+// OID -> dotted text (the dict keys and OID values handed to Python), real core::fmt
+
+/// reference decimal rendering of v into out starting at pos; returns new pos
+fn put_dec(out: &mut [u8; 40], mut pos: usize, v: u32) -> usize {
+    let mut digits = [0u8; 10];
+    let mut n = 0;
+    let mut x = v;
+    loop {
+        digits[n] = b'0' + (x % 10) as u8;
+        n += 1;
+        x /= 10;
+        if x == 0 {
+            break;
+        }
+    }
+    while n > 0 {
+        n -= 1;
+        out[pos] = digits[n];
+        pos += 1;
+    }
+    pos
+}
+
+macro_rules! oid_to_text {
+    ($name:ident, $n:tt) => {
+        #[kani::proof]
+        #[kani::unwind(12)]
+        fn $name() {
+            let c: [u8; $n] = kani::any();
+            kani::assume(c[0] < 120);
+            kani::assume(c[$n - 1] & 0x80 == 0); // the last sub-identifier is complete
+            let o = SnmpOid::from(c.to_vec());
+            let s = String::try_from(&o).expect("non-empty OID renders");
+            // reference: first octet -> X.Y, then base-128 sub-identifiers
+            let mut want = [0u8; 40];
+            let mut p = put_dec(&mut want, 0, (c[0] / 40) as u32);
+            want[p] = b'.';
+            p = put_dec(&mut want, p + 1, (c[0] % 40) as u32);
+            let mut acc: u32 = 0;
+            let mut i = 1;
+            while i < $n {
+                acc = (acc << 7) | (c[i] & 0x7f) as u32;
+                if c[i] & 0x80 == 0 {
+                    want[p] = b'.';
+                    p = put_dec(&mut want, p + 1, acc);
+                    acc = 0;
+                }
+                i += 1;
+            }
+            let got = s.as_bytes();
+            assert!(got.len() == p, "oid_text_length");
+            let mut i = 0;
+            while i < 11 {
+                if i < p {
+                    assert!(got[i] == want[i], "oid_text_is_dotted_decimal_of_the_arcs");
+                }
+                i += 1;
+            }
+            kani::cover!(c[0] == 40, "first octet 40 -> 1.0");
+            kani::cover!(c[0] == 80, "first octet 80 -> 2.0");
+            core::mem::forget(s);
+            core::mem::forget(o);
+        }
+    };
+}
+//@ C02,C08 quick timeout=900 | String::try_from(&SnmpOid) (real core::fmt) for EVERY OID of 2 content octets with first octet < 120: == "X.Y.arc" reference rendering (first-arc split at 40/80 included)
+oid_to_text!(oid_to_text_2, 2);
+//@ C02,C08 thorough timeout=3000 optional | String::try_from(&SnmpOid) for every OID of 3 content octets (one two-octet arc or two one-octet arcs)
+oid_to_text!(oid_to_text_3, 3);
